@@ -83,6 +83,7 @@ type ConnLog struct {
 	Served      []*ref.AEvent
 	SawClose    bool  // master read EOF / error from the client
 	AuthSeen    bool
+	Stalled     bool  // the plan's handshake stall (Pre "stall_*") was reached: the master waits for the client to go away
 	StreamEnded string // how the stream ended ("eof","fin","rst","short","oos","err","silent","client-closed")
 }
 
@@ -94,6 +95,8 @@ type Master struct {
 	// AfterPacket, when set, is called after each released stream packet (the
 	// pacing hook: lock-step yields here).
 	AfterPacket func(conn int, i int)
+	// OnStall is called when a connection reaches its handshake stall.
+	OnStall func(conn int)
 	// BeforePacket is called before each stream packet is released.
 	BeforePacket func(conn int, i int)
 }
@@ -122,6 +125,24 @@ func (m *Master) Serve(idx int, c Conn) {
 		_, err := c.Write(ref.Frame(&seq, p))
 		return err == nil
 	}
+	// stall: the master stops talking at this stage of the handshake and only
+	// waits for the client to go away (a partitioned network, a hung server)
+	stall := func() {
+		log.Stalled = true
+		if m.OnStall != nil {
+			m.OnStall(idx)
+		}
+		for {
+			if _, _, err := ref.ReadPacket(c); err != nil {
+				log.SawClose = true
+				return
+			}
+		}
+	}
+	if plan.Pre == "stall_greeting" {
+		stall()
+		return
+	}
 	if plan.Pre == "err_greeting" {
 		send(ref.ERR(ref.ErrSpec{Code: 1040, State: "08004", Message: "Too many connections"}))
 		c.Close()
@@ -141,6 +162,10 @@ func (m *Master) Serve(idx int, c Conn) {
 	}
 	log.AuthSeen = true
 	seq = s + 1
+	if plan.Pre == "stall_auth" {
+		stall()
+		return
+	}
 	if plan.Pre == "err_auth" {
 		send(ref.ERR(ref.ErrSpec{Code: 1045, State: "28000", Message: "Access denied for user 'u'@'h' (using password: YES)"}))
 		c.Close()
@@ -169,6 +194,10 @@ func (m *Master) Serve(idx int, c Conn) {
 			// the client closes after COM_QUIT; wait for it
 		case ref.ComQuery:
 			log.Cmds = append(log.Cmds, Cmd{Code: ref.ComQuery, Text: string(p[1:]), Seq: s})
+			if plan.Pre == "stall_query" {
+				stall()
+				return
+			}
 			if plan.Pre == "err_query" {
 				if !send(ref.ERR(ref.ErrSpec{Code: 1193, State: "HY000", Message: "Unknown system variable 'binlog_checksum'"})) {
 					return
@@ -193,6 +222,10 @@ func (m *Master) Serve(idx int, c Conn) {
 				continue
 			}
 			log.Cmds = append(log.Cmds, Cmd{Code: ref.ComBinlogDump, Dump: &d, Seq: s})
+			if plan.Pre == "stall_dump" {
+				stall()
+				return
+			}
 			if plan.Pre == "fin_after_dump" {
 				c.Close()
 				return
